@@ -74,6 +74,8 @@ impl PoolManager {
             if first_idle_worker >= self.pool_size {
                 return;
             };
+            #[cfg(feature = "verif-hooks")]
+            crate::verif_hooks::delay(crate::verif_hooks::site::P1);
             active_workers = self
                 .active_workers
                 .fetch_or(1 << first_idle_worker, Ordering::Relaxed);
@@ -104,6 +106,8 @@ impl PoolManager {
                 }
                 active_workers = new_active_workers;
             } else {
+                #[cfg(feature = "verif-hooks")]
+                crate::verif_hooks::delay(crate::verif_hooks::site::P2);
                 active_workers = self
                     .active_workers
                     .fetch_or(1 << first_idle_worker, Ordering::Relaxed);
@@ -156,6 +160,8 @@ impl PoolManager {
             // in this and in the previous calls to `set_inactive` via a release
             // sequence.
             atomic::fence(Ordering::Acquire);
+            #[cfg(feature = "verif-hooks")]
+            crate::verif_hooks::delay(crate::verif_hooks::site::W3);
 
             false
         } else {
